@@ -38,6 +38,35 @@ theorem dedup_map_exact {s : State} (hr : Reachable s) (k tid : Nat) :
 
 example : alookup 55 s1.dedup = some 1 := by decide
 
+/-! #### why fix `8d3e7dd` matters
+
+`legacyState`: D is executed and succeeds with a background-learning run (task 2, same key,
+never entered in the map), then D is requested again (task 3, fresh, entered in the map).  Both
+are uncompleted.  The code before the fix executed `delete(inFlightDeduplicationMap, digest)`
+*unconditionally* when task 2 completes: -/
+def legacyState : State := run (State.init cfg0)
+  [ .register 1 [] 7 [0] 3 0,
+    .exec h0 0 100 55 55 false [] 7 [1] 0,
+    .sync { h0 with assign := [(q0, w0, 1)] } 0 q0 [] 7 w0 .idle false,
+    .sync { h0 with bg := some 0, assign := [(q0, w0, 2)] } 5 q0 [] 7 w0 (.completed 55 ⟨cOK, 0, 9, .worker⟩) false,
+    .exec h0 5 101 55 55 false [] 7 [2] 0 ]
+
+/-- In the reachable state `legacyState` the background task 2 and the live cacheable foreground
+task 3 share key 55 and the map points to 3 — and the legacy unconditional
+`delete(map, key of task 2)` would leave the map without an entry for the live task 3, i.e.
+the conclusion of `dedup_map_exact` fails for the pre-fix rule (a third `Execute` would then start
+a second execution).  The fixed rule (`if map[key] == this task`) does not erase: the entry is 3 ≠ 2. -/
+theorem dedup_map_exact_counterexample_legacy :
+    Reachable legacyState ∧
+    (legacyState.task? 2).map (fun t => (t.dkey, t.background, t.response.isSome)) = some (55, true, false) ∧
+    (legacyState.task? 3).map (fun t => (t.dkey, t.background, t.doNotCache, t.response.isSome)) =
+      some (55, false, false, false) ∧
+    alookup 55 legacyState.dedup = some 3 ∧
+    alookup 55 (aerase 55 legacyState.dedup) = none ∧
+    (if alookup 55 legacyState.dedup = some 2 then aerase 55 legacyState.dedup else legacyState.dedup)
+      = legacyState.dedup :=
+  ⟨reachable_run (Reachable.init cfg0) _, by decide, by decide, by decide, by decide, by decide⟩
+
 /-- at most one uncompleted cacheable foreground task per key -/
 theorem dedup_unique {s : State} (hr : Reachable s) {k1 k2 : Nat} {t1 t2 : Task}
     (h1 : s.task? k1 = some t1) (h2 : s.task? k2 = some t2) (hk : t1.dkey = t2.dkey)
@@ -91,6 +120,9 @@ theorem do_not_cache_never_in_map {s : State} (hr : Reachable s) {tid : Nat} {t 
   rcases hd with hd | hd
   · rw [h4] at hd; cases hd
   · rw [h5] at hd; cases hd
+
+example : (legacyState.task? 2).map (fun t => (t.background, t.doNotCache)) = some (true, true) ∧
+    legacyState.dedup.all (fun p => p.2 != 2) = true := by decide
 
 /-- background-learning tasks are uncacheable -/
 theorem background_is_do_not_cache {s : State} (hr : Reachable s) {tid : Nat} {t : Task}
@@ -152,6 +184,9 @@ theorem fresh_after_completion {s : State} (hr : Reachable s) {tid : Nat} {t : T
   obtain ⟨t', h1, _, h3, _⟩ := (dedup_map_exact hr k tid).mp h
   rw [ht] at h1; cases h1
   exact hc h3
+
+example : (legacyState.task? 1).map (·.response.isSome) = some true ∧ alookup 55 legacyState.dedup ≠ some 1 := by
+  decide
 
 /-- if no live cacheable foreground task has key `k`, the map has no entry for `k` -/
 theorem no_live_task_no_entry {s : State} (hr : Reachable s) (k : Nat)
